@@ -271,7 +271,7 @@ def gen_history(rng, sim, hid, kind, nops):
         else:
             used = last + rngl.choice([1, 10, 500])
         conts = []
-        n = big if big else rngl.choice([1, 1, 1, 2])
+        n = big if big else rngl.choice([2, 3]) if kind == "dupseq" else rngl.choice([1, 1, 1, 2])
         rem = used
         for i in range(n):
             sess["lsn"] += 1
@@ -279,6 +279,10 @@ def gen_history(rng, sim, hid, kind, nops):
             rem -= t
             online = True if big else rngl.random() < 0.9
             conts.append(mk_container(rngl, online, t, sess["lsn"]))
+            if kind == "dupseq" and i > 0 and rngl.random() < 0.6:
+                # a container that repeats the sequence number and total volume of the one before it (other members
+                # differ): it is a container the consumer reported, and is recorded like any other
+                conts[-1]["lsn"], conts[-1]["total"] = conts[-2]["lsn"], conts[-2]["total"]
         req = rngl.choice([100, 100, 50, 10, 1, 0, 1000]) if rngl.random() < 0.93 else None
         return {"rg": rg, "req": req, "conts": conts}
 
@@ -445,6 +449,11 @@ def gen_history(rng, sim, hid, kind, nops):
             o = send({"kind": "release", "ref": s["ref"], "req": req})
             if o["status"] == 204:
                 s["live"] = False
+                if kind == "stale" and rng.random() < 0.8:
+                    # the reference just released is used again at once (mostly by an update): 404 and no effect,
+                    # although the subscriber, its records and -- for a consumer that kept counting -- the usage look right
+                    g = usage_for({"grants": {}, "lsn": 800 + len(h.ops)}, rng.choice(rgs), False, rng)
+                    send({"kind": rng.choice(["update", "update", "release"]), "ref": s["ref"], "req": new_req(s["supi"], [g], cid=s["cid"], notify=s["notify"])})
         elif r < 0.88:
             supi, rg = rng.choice([(a[0], a[1]) for a in h.accounts])
             send({"kind": "credit", "supi": supi, "rg": rg, "amount": rng.choice([100, 1000, 5])})
@@ -739,10 +748,10 @@ SPEC = {
     # property: (Props file, correspondence codes that matter, plan quick, plan thorough)
     "C01": ("Charging/PropsC01.v", {2, 3, 4}, [("single", 14)] * 10 + [("multi", 16)] * 8 + [("createusage", 5)] * 2),
     "C06": ("Charging/PropsC06.v", {2, 3, 4}, [("single", 16)] * 8 + [("compliant", 16)] * 7 + [("multi", 14)] * 5 + [("twin", 10)] * 4),
-    "C02": ("Charging/PropsC02.v", {5, 6, 8}, [("multi", 18)] * 10 + [("pdu", 12)] * 2 + [("single", 10)] * 4 + [("split", 6)] * 2),
+    "C02": ("Charging/PropsC02.v", {5, 6, 8}, [("multi", 18)] * 10 + [("pdu", 12)] * 2 + [("single", 10)] * 4 + [("split", 6)] * 2 + [("dupseq", 12)] * 3),
     "C03": ("Charging/PropsC03.v", {5, 8}, [("multi", 14)] * 8 + [("split", 10)] * 3 + [("split2", 11)] + [("huge", 2)] + [("lenwalk", 1)]),
     "C10": ("Charging/PropsC10.v", {1, 6, 9}, [("wrap32", 16)] + [("multi", 18)] * 10 + [("names", 14)] * 4 + [("burst", 4)] * 4 + [("wrap63", 8)]),
-    "C12": ("Charging/PropsC12.v", {1, 3, 4, 5, 6, 7}, [("multi", 18)] * 14 + [("single", 12)] * 4),
+    "C12": ("Charging/PropsC12.v", {1, 3, 4, 5, 6, 7}, [("multi", 18)] * 14 + [("single", 12)] * 4 + [("stale", 14)] * 4),
     "C11": ("Charging/PropsC11.v", {1}, [("multi", 14)] * 8 + [("single", 10)] * 4 + [("split", 10)] * 2),
 }
 KNOWN = {"C01/usage-in-create-not-rated",
